@@ -182,3 +182,9 @@ package transport_controller
 //@   loop $1.1 invariant forall k int trigger lnks[k] :: 0 <= k && k < len(lnks) ==> exists u uint64 :: (u in c.links) && c.links[u].lnk == lnks[k]
 //@   cs Controller.bcast ensures forall k int trigger lnks[k] :: 0 <= k && k < len(lnks) ==> exists u uint64 :: (u in self.links) && self.links[u].lnk == lnks[k]
 //@   ensures forall k int trigger ret[k] :: 0 <= k && k < len(ret) ==> ret[k] != nil && ret[k].GetRemotePeer() == peerID
+
+// ---- C05: the link dialer for (peer, address) stores only a link to that peer ----
+//@ func (*linkDialer).executeLinkDialer
+//@   noframe
+//@   nosweep nil-deref
+//@   assert at call SetValue: l.key.peerID == "" || arg0 == nil || arg0.GetRemotePeer() == l.key.peerID
